@@ -60,6 +60,10 @@ def base_pair(cls: int, seed: int = 0):
     if cls == 3:
         im[0, 0] = np.nan
         im[2, 3] = np.nan
+        if seed % 2:
+            im[:, -1] = np.nan  # a NaN border column (every row holds a NaN): still "not entirely NaN"
+        elif seed % 4 == 2:
+            im[np.arange(min(im.shape)), np.arange(min(im.shape))] = np.nan  # a NaN diagonal
         disp = (1, 1)  # a point interval (min == max) is well-formed
     l = build.image_dataset(im, disp=disp, bands=bands, **kw)
     rdisp = None
